@@ -406,10 +406,22 @@ pub fn gen_program(rng: &mut Rng, opts: &GenOpts) -> Module {
             fresh: 0,
             depth_budget: 40 + size * 10,
             in_closure: 0,
-            allow_return: true,
+            allow_return: name != "main",
         };
         let n = ctx.rng.range(1, size as i64 + 1) as usize;
-        let mut cards = ctx.stmts(n, 2, true);
+        let mut cards = vec![];
+        if name == "main" {
+            // the globals every function may read
+            for i in 0..5 {
+                ctx.globals.push(format!("g{i}"));
+                cards.push(Card::set_global_var(format!("g{i}"), int(i)));
+            }
+        } else {
+            for i in 0..5 {
+                ctx.globals.push(format!("g{i}"));
+            }
+        }
+        cards.extend(ctx.stmts(n, 2, true));
         if name == "main" {
             // publish the visible locals
             let ls: Vec<String> = ctx.scopes[0].clone();
